@@ -553,7 +553,10 @@ func genFuture(r *kit.Rand) *scenario {
 		}
 	}
 	signers := chooseSigners(r, newVals)
-	if r.Chance(85) { // make the old set happy as well: everybody in old ∩ new signs
+	if r.Chance(40) {
+		signers = allSign(nNew)
+	}
+	if r.Chance(92) { // make the old set happy as well: everybody in old ∩ new signs
 		for i, v := range newVals {
 			for _, ov := range old {
 				if ov.id == v.id {
@@ -637,10 +640,10 @@ func genRandom(o *kit.Out, r *kit.Rand, nVC, nVFC, nMal int) {
 	o.Case("random-vfc")
 	for k := 0; k < nVFC; k++ {
 		sc := genFuture(r)
-		if r.Chance(15) {
+		if r.Chance(12) {
 			futureMutate(r, sc)
 		}
-		if r.Chance(8) {
+		if r.Chance(6) {
 			mutate(r, sc, kit.Pick(r, mutNames))
 		}
 		emit(o, sc)
